@@ -2428,8 +2428,18 @@ of the ancestor of `t'` behind the path.  Needed and not yet proved: (1) a descr
 (`PureV`, Proofs/FitValid.lean, gives validity of each level but not *which* children it has); (2) from `Coh`
 (Proofs/FitCoherent.lean) at the end of `close`: `frontier[i].match` is the state after `left_i ++ inner_i`, and
 `findCloseLevel` / `closeFit_valid` give that `right_i` is accepted from it — i.e. `checkContent` of the joined node;
-(3) `joinable`: the types on both spines are the document's own (`fitInit`, `reopen`), `compatible_content` is reflexive
-(`compatibleContent_self`).  `replaceKids_merge_open` (Proofs/MergeOpen.lean) turns (1)–(3) into success of the replace. -/
+(3) `joinable`: at every joined depth `replace_two_way` / `replace_three_way` call `check_join(node_i(from), node_i(t'))`,
+i.e. `compatible_content` of the two *document* ancestors.  The Fitter tests `compatible_content` only when nothing
+follows `t'` in the node (`content_after_fits`: `index == child_count and not type.compatible_content(…)`), so (3) is
+NOT a consequence of the run: it needs a schema-level guard "two node types one of whose content tails is accepted from
+a state of the other are `compatible_content`" (true of the bundled family, where joined ancestors have equal or
+start-compatible types; decidable over pairs of automaton states that share an edge label).  Without it the statement
+is false, in the code as upstream: schema `doc: "(x | y)+"`, `x: "a b*"`, `y: "b+"`, leaves `a`, `b`; `doc(x(a), y(b, b))`,
+`delete(2, 5)`: `replace_step` answers `ReplaceStep(2, 5, Slice.empty)` (the `b` behind `to` is accepted after `a`), and
+`Transform.delete` raises `TransformError("Cannot join y onto x")` (the start states of `x` and `y` share no type).
+Given (1)–(3), `replaceKids_undoG` (Proofs/UndoInverse.lean: a replace succeeds when a valid document in normal form exists
+whose cut is the slice and which is `LeftRel` / `RightRel` to the present one) or `replaceKids_merge_open`
+(Proofs/MergeOpen.lean) turn them into success of the replace. -/
 
 /-- the position does not fall between the two halves of a surrogate pair (as `C12.pairAligned`) -/
 def pairAligned (doc : Node) (pos : Nat) : Bool :=
